@@ -90,12 +90,25 @@ Definition time_allows (es : list tf_entry) (day hour : N) : bool :=
   existsb (fun e => tf_match e day hour) es.
 
 (* ---------------------------------------------------------------- localhost *)
-(* HTTPProxy.isLocalhost.  hp.localhost = seed list (source) ++ lower-cased
-   hosts-file aliases of loopback addresses. *)
-Definition is_localhost (aliases : list str) (host : str) : bool :=
-  let h := lower host in
+(* "::1%lo" -> "::1": strings.Cut(host, "%") *)
+Definition strip_zone (h : str) : str :=
+  match cut_byte 37 h with Some (x, _) => x | None => h end.
+
+(* a finite table read as a function that is the identity elsewhere: used for the IDNA
+   mapping oracle (golang.org/x/net/idna Lookup.ToASCII on non-ASCII names; the harness
+   records its answers on the host names of the run) *)
+Definition table_fun (t : list (str * str)) (h : str) : str :=
+  match find (fun kv => str_eqb (fst kv) h) t with Some kv => snd kv | None => h end.
+
+(* HTTPProxy.isLocalhost.  hp.localhost = seed list (source) ++ lower-cased hosts-file
+   aliases of loopback addresses.  Three shapes are read from the source:
+   localhost_maps_idna  : the name is first mapped the way the transport maps it (asciiHostname)
+   localhost_strips_zone: a zone is cut off before net.ParseIP
+   localhost_checks_unspecified : IsUnspecified counts like IsLoopback *)
+Definition is_localhost (idna : str -> str) (aliases : list str) (host : str) : bool :=
+  let h := lower (if localhost_maps_idna then idna host else host) in
   existsb (str_eqb h) (localhost_seed ++ aliases) ||
-  match parse_ip h with
+  match parse_ip (if localhost_strips_zone then strip_zone h else h) with
   | Some ip => ip_loopback ip || (localhost_checks_unspecified && ip_unspecified ip)
   | None => false
   end.
@@ -108,7 +121,8 @@ Record config := {
   c_deny_localhost : bool;              (* ProxyLocalhost == deny *)
   c_deny : option (str -> bool);        (* DenyDomains matcher (C17 proves what a rule list denotes) *)
   c_aliases : list str;
-  c_mitm : bool                         (* MITM configured and the filter selects every host *)
+  c_mitm : bool;                        (* MITM configured and the filter selects every host *)
+  c_idna : str -> str                   (* oracle: the ASCII form the transport connects to (identity on ASCII names) *)
 }.
 Record env := { now_day : N; now_hour : N }.
 
@@ -169,9 +183,10 @@ Definition passes (cfg : config) (e : env) (host : str) (h : hmap) (c : control)
              | Some (u, p) => authenticated h u p
              | None => true
              end
-  | CLocal => negb (is_localhost (c_aliases cfg) (url_hostname host))
+  | CLocal => negb (is_localhost (c_idna cfg) (c_aliases cfg) (url_hostname host))
   | CDeny => match c_deny cfg with
-             | Some m => negb (m (url_hostname host))
+             | Some m => negb (m (url_hostname host) ||
+                               (deny_matches_ascii_form && m (c_idna cfg (url_hostname host))))
              | None => true
              end
   | CStack => true
@@ -334,12 +349,13 @@ Definition connection (cfg : config) (e : env) (qs : list (req * upstream_reply)
   map (fun qu => exchange cfg e (fst qu) (snd qu)) qs.
 
 (* ---------------------------------------------------------------- what the property demands *)
-(* spec-level "this target is the local machine": seed names, hosts-file
-   aliases, loopback AND unspecified literals of either family *)
-Definition target_is_local (aliases : list str) (host : str) : bool :=
-  let h := lower host in
+(* spec-level "this target is the local machine": seed names, hosts-file aliases, loopback
+   AND unspecified literals of either family — judged on the name the transport connects
+   to (IDNA-mapped), a zone not changing which host a literal denotes *)
+Definition target_is_local (idna : str -> str) (aliases : list str) (host : str) : bool :=
+  let h := lower (idna host) in
   existsb (str_eqb h) (localhost_seed ++ aliases) ||
-  match parse_ip h with
+  match parse_ip (strip_zone h) with
   | Some ip => ip_loopback ip || ip_unspecified ip
   | None => false
   end.
@@ -361,8 +377,11 @@ Definition must_fail (cfg : config) (e : env) (q : req) (c : control) : bool :=
              | Some (u, p) => negb (existsb (line_exact u p) (pa_lines (r_hdr q)))
              | None => false
              end
-  | CLocal => target_is_local (c_aliases cfg) (url_hostname (r_host q))
-  | CDeny => match c_deny cfg with Some m => m (url_hostname (r_host q)) | None => false end
+  | CLocal => target_is_local (c_idna cfg) (c_aliases cfg) (url_hostname (r_host q))
+  | CDeny => match c_deny cfg with
+             | Some m => m (url_hostname (r_host q)) || m (c_idna cfg (url_hostname (r_host q)))
+             | None => false
+             end
   | CStack => false
   end.
 Definition must_pass (cfg : config) (e : env) (q : req) (c : control) : bool :=
